@@ -7,7 +7,7 @@ paths that go through plain attributes and builtin containers only."""
 
 FEATURES = ['property', 'nondata_desc', 'data_desc', 'slots', 'meta_property', 'meta_desc',
             'getattr', 'getattribute', 'dir', 'getitem', 'iter', 'next', 'call', 'len', 'bool',
-            'classattr', 'instattr', 'nested', 'method', 'sub_builtin_desc']
+            'classattr', 'instattr', 'nested', 'method', 'sub_builtin_desc', 'getdel_desc']
 
 PRELUDE = '''
 import collections, types
@@ -26,6 +26,15 @@ class Data:
         COUNTER[(self.tag, '__get__')] += 1
         return 12
     def __set__(self, obj, value):
+        pass
+
+class GetDelete:
+    """descriptor with __get__ and __delete__ but no __set__: still a data descriptor"""
+    def __init__(self, tag): self.tag = tag
+    def __get__(self, obj, typ=None):
+        COUNTER[(self.tag, '__get__')] += 1
+        return 14
+    def __delete__(self, obj):
         pass
 
 class LazyClassMethod(classmethod):
@@ -75,6 +84,8 @@ def gen_class(rnd, name, base, feats, meta=None):
         body.append("    nd = NonData('%s.nd')" % name)
     if 'data_desc' in feats:
         body.append("    dd = Data('%s.dd')" % name)
+    if 'getdel_desc' in feats:
+        body.append("    gd = GetDelete('%s.gd')" % name)
     if 'sub_builtin_desc' in feats:
         body.append('    lcm = LazyClassMethod(lambda cls: Leaf())')
         body.append('    csm = CachedStatic(lambda: Leaf())')
@@ -89,6 +100,9 @@ def gen_class(rnd, name, base, feats, meta=None):
         init += ['        self.s_one = 7']
     if 'nested' in feats:
         init += ['        self.i_ns = types.SimpleNamespace(q=1, r=Leaf(), t=(Leaf(), "z"))']
+    if 'getdel_desc' in feats:
+        # an instance __dict__ entry shadowed by the data descriptor of the same name
+        init += ["        self.__dict__['gd'] = 12345"]
     body += init or ['        pass']
     if 'property' in feats:
         body += ['    @property', '    def prop(self):', "        COUNTER[('%s', 'property')] += 1" % name,
